@@ -52,7 +52,7 @@ def prepare(w, cases):
 
 def explore(w, report, cases, prop, harness_re, nmax, per_job_timeout, family, nmin=0, sample_every=25,
             validate_pkgs=8, seed=0, max_steps=2_000_000, chunk=120, wall_limit=None, expect_cex=False,
-            solver="z3-new", twin_re=None):
+            solver="z3-new", twin_re=None, confirm=None):
     """Run the engine over the cases' harness packages; triage counterexamples.
     Returns aggregate stats."""
     good = [c for c in cases if not c.gen_errors]
@@ -118,7 +118,7 @@ def explore(w, report, cases, prop, harness_re, nmax, per_job_timeout, family, n
                     agg["cex_not_triaged"] = agg.get("cex_not_triaged", 0) + 1
                     continue
                 triaged[rel] = triaged.get(rel, 0) + 1
-                triage(w, report, prop, family, c, rel, hname, j["arg"], cx)
+                triage(w, report, prop, family, c, rel, hname, j["arg"], cx, confirm=confirm)
     # cross-validation of sampled paths against the native build
     rels = sorted(samples_by_rel)
     rnd = random.Random(seed)
@@ -153,12 +153,22 @@ def model_bytes(model, name="in"):
     return out
 
 
-def triage(w, report, prop, family, c, rel, hname, arg, cx):
+def triage(w, report, prop, family, c, rel, hname, arg, cx, confirm=None):
     """Replay a counterexample natively; report only what reproduces."""
     model = cx.get("model") or {}
     msg = cx.get("msg", "")
+    if confirm is not None:
+        alt = confirm(w, rel, hname, arg, model, msg)
+        if alt is not None:
+            return finish_triage(w, report, prop, family, c, rel, hname, arg, cx, alt, False)
     hang = msg.startswith("step limit")
     nat = native_run(w, rel, hname, arg, model, timeout=8 if hang else 120)
+    return finish_triage(w, report, prop, family, c, rel, hname, arg, cx, nat, hang)
+
+
+def finish_triage(w, report, prop, family, c, rel, hname, arg, cx, nat, hang):
+    model = cx.get("model") or {}
+    msg = cx.get("msg", "")
     doc = {"property": prop, "family": family, "case": c.id if c else rel, "tags": c.tags if c else [], "harness": hname, "arg": arg,
            "model": model, "input": model_bytes(model), "msg": msg, "peg": c.peg if c else "",
            "variants": [[r, f] for r, _, f in (c.variants if c else [])], "native": {k: nat[k] for k in ("fails", "panic", "timeout", "notes")}}
